@@ -62,7 +62,11 @@ class _Fn:
 
     @staticmethod
     def tot(c):
-        return sum(c.values()) if isinstance(c, dict) else sum(c)
+        if isinstance(c, dict):                       # ObjS is a dict too
+            return sum([_Fn.tot(v) for v in c.values()])
+        if isinstance(c, (list, tuple)):
+            return sum([_Fn.tot(v) for v in c])
+        return c
 
     def __deepcopy__(self, memo):
         return self
@@ -431,6 +435,17 @@ class Shadow:
             if c[:n] == other[:n]:
                 return True
         return False
+
+    def true_cycle(self):
+        """A defined location whose definition (conservatively: a computed key reads the whole
+        container) transitively reads itself: outside every property's acyclic premise."""
+        defined = list(self.defs) + [ft["target"] for ft in self.ftasks.values()] + \
+            [t for kb in self.knobs.values() for t in kb["targets"]]
+        for d in defined:
+            for r in self.reads(d):
+                if self.depends_on(r, d):
+                    return d
+        return None
 
     def contents_canon(self):
         return {k: canon(v) for k, v in self.all_expected().items()}
